@@ -296,9 +296,9 @@ def obligations(tier: str) -> List[Obligation]:
     streams = [('truncated-query-then-query', TCQ, {'payload': 1, 'counts': [1, 0, 0, 0], 'flags': 0, 'lead_question': False, 'gap': 50}),
                ('truncated-query-then-truncated-query', TCQ, dict(TCQ, gap=450))]
     if tier != 'quick':
-        streams += [('truncated-query-then-known-answers', TCQ, {'payload': 2, 'counts': [1, 1, 0, 0], 'flags': 0, 'lead_question': True, 'gap': 50}),
-                    ('response-then-response', {'payload': 2, 'counts': [0, 1, 0, 0], 'flags': 0x8400, 'lead_question': False}, {'payload': 2, 'counts': [0, 1, 0, 0], 'flags': 0x8400, 'lead_question': False, 'gap': 10}),
-                    ('query-then-response', {'payload': 2, 'counts': [1, 0, 0, 0], 'flags': 0, 'lead_question': False}, {'payload': 2, 'counts': [0, 1, 0, 0], 'flags': 0x8400, 'lead_question': False, 'gap': 10})]
+        streams += [('truncated-query-then-known-answers', TCQ, {'payload': 1, 'counts': [1, 1, 0, 0], 'flags': 0, 'lead_question': True, 'gap': 50}),
+                    ('response-then-response', {'payload': 1, 'counts': [0, 1, 0, 0], 'flags': 0x8400, 'lead_question': False}, {'payload': 2, 'counts': [0, 1, 0, 0], 'flags': 0x8400, 'lead_question': False, 'gap': 10}),
+                    ('query-then-response', {'payload': 1, 'counts': [1, 0, 0, 0], 'flags': 0, 'lead_question': False}, {'payload': 2, 'counts': [0, 1, 0, 0], 'flags': 0x8400, 'lead_question': False, 'gap': 10})]
     for name, first, second in streams:
         shape = dict(first, timing='fixed', second=second)
         obs.append(Obligation(f'survive[stream {name}]', make(shape), 'survive-stream', shape, timeout=280 if tier == 'quick' else 1500))
